@@ -107,6 +107,90 @@ def rule_swap(S):
     S.require('R-SWAP', 'overwrite exits with a displaced value', n, 1)
 
 
+def rule_disp(S):
+    """R-DISP: link_or_value::set_value never drops the out-of-line value it displaces."""
+    facts = S.facts()
+    S.rule('R-DISP', 'link_or_value::set_value: on every path on which the current slot value needs deletion '
+                     '(value::need_delete established true) the store of the new word is preceded by '
+                     'value::delete_value(current) or by handing it out through the old_value out-pointer')
+    f = facts.one(Y + 'link_or_value::set_value')
+    ov = [p['id'] for p in f.params if p['type'].replace(' ', '') == 'yakushima::value**']
+    if len(ov) != 1:
+        raise AnalysisBroken('R-DISP: set_value has no value** out-parameter')
+    ov = ov[0]
+    res = {'stores': 0, 'ok': True, 'path': None, 'needs': 0, 'why': ''}
+    curv = {v['id'] for n in f.all_nodes() if n['k'] == 'DeclStmt' for v in n.get('vars', [])
+            if 'init' in v and any(is_call(x, cq=Y + 'link_or_value::get_value') for x in f.walk(f.node(v['init'])))}
+
+    # call sites that give no old_value out-pointer: are they all inserts into a fresh slot?
+    unfresh = []
+    for g in facts.functions.values():
+        for nd in g.all_nodes():
+            if not is_call(nd, cq=Y + 'link_or_value::set_value'):
+                continue
+            args = call_args(g, nd)
+            third = g.strip(args[2], casts=True) if len(args) > 2 else None
+            takes_old = third is not None and third['k'] != 'CXXDefaultArgExpr' and R.const_of(g, third) != 'null'
+            eg = g
+            while eg.is_lambda and eg.enclosing:
+                eg = facts.get(eg.enclosing)
+            if not takes_old and eg.qname not in (Y + 'border_node::insert_lv_at', Y + 'border_node::set_lv_value'):
+                unfresh.append('%s at %s' % (eg.qname, short_loc(nd)))
+
+    def step(ctx, nd, st):
+        need, done, ovn = st
+        if is_call(nd, cq=Y + 'value::delete_value'):
+            return (need, True, ovn)
+        if nd['k'] == 'BinaryOperator' and nd.get('op') == '=':
+            l = f.strip(f.ch(nd)[0], casts=True)
+            if l is not None and l['k'] == 'UnaryOperator' and l.get('op') == '*' and root_var(f, l) == ov:
+                return (need, True, ovn)
+        if nd['k'] in CALL_KINDS and ((nd.get('cn') or '').startswith('storeRelease') or nd.get('cn') == 'store'):
+            res['stores'] += 1
+            # a path taken only without an out-pointer carries no obligation when every such caller inserts into a
+            # fresh slot (nothing can be displaced there)
+            unexamined = need == '?' and not (ovn == 'null' and not unfresh)
+            if (need == 'T' and not done) or unexamined:
+                res['ok'] = False
+                res['why'] = ('without the current value having been examined (need_delete) on this path%s' % (
+                    '; callers without an out-pointer that overwrite existing entries: ' + ', '.join(unfresh)
+                    if unfresh else '')) if need == '?' \
+                    else 'while the out-of-line value it held is neither freed nor handed to the caller'
+                res['path'] = res['path'] or ctx.witness()
+        return (need, done, ovn)
+
+    def branch(ctx, blk, idx, st):
+        need, done, ovn = st
+        t = blk.term
+        if t and 'cond' in t and len(blk.succ) == 2:
+            c = f.strip(f.node(t['cond']))
+            flip = False
+            while c is not None and c['k'] == 'UnaryOperator' and c.get('op') == '!':
+                flip = not flip
+                c = f.strip(f.ch(c)[0])
+            if c is not None and is_call(c, cq=Y + 'value::need_delete'):
+                res['needs'] += 1
+                truth = (idx == 0) != flip
+                return ('T' if truth else 'F', done, ovn)
+            fl, shape = R.cond_shape(f, t['cond'])
+            if shape[0] == 'nonnull' and shape[1] in curv and not ((idx == 0) != fl):
+                return ('F', done, ovn)   # the slot holds no value object: nothing is displaced
+            if shape[0] == 'nonnull' and shape[1] == ov:
+                want = 'nonnull' if ((idx == 0) != fl) else 'null'
+                if ovn != '?' and ovn != want:
+                    return None
+                return (need, done, want)
+        return st
+
+    Explorer(f, step, branch).run(('?', False, '?'))
+    S.require('R-DISP', 'need_delete tests in set_value', res['needs'], 1)
+    S.require('R-DISP', 'stores of the slot word in set_value', res['stores'], 1)
+    S.ob('R-DISP', f.qname, 'store of the new slot word', res['ok'],
+         'a displaced out-of-line value is freed or handed to the caller before the slot is overwritten' if res['ok'] else
+         'the slot is overwritten ' + res['why'] + ': a displaced block is unreachable afterwards (leak)',
+         loc=f.loc, path=res['path'])
+
+
 def rule_drain(S):
     facts = S.facts()
     S.rule('R-DRAIN', 'every data member of garbage_collection that push_* / gc_* write is emptied by '
@@ -337,6 +421,7 @@ def run(S):
                      '(R-DESTROY, R-DRAIN, C07)']
     rule_own(S)
     rule_swap(S)
+    rule_disp(S)
     rule_drain(S)
     rule_destroy(S)
     rule_root(S)
